@@ -795,7 +795,20 @@ func (e *Exec) resolveArrayRoot(st *State, x ast.Expr, fp *footprint, info *type
 			}
 		}
 		return nil, false
-	case *ast.SelectorExpr, *ast.IndexExpr:
+	case *ast.IndexExpr:
+		// an element of a slice lives in that slice's backing array
+		if _, isSlice := info.TypeOf(n.X).Underlying().(*types.Slice); isSlice {
+			if _, elemIsSlice := info.TypeOf(n).Underlying().(*types.Slice); !elemIsSlice {
+				return e.resolveArrayRoot(st, n.X, fp, info, depth+1)
+			}
+		}
+		if v, ok := e.evalAtHead(st, x, fp, info); ok {
+			if sv, ok := toSlice(v); ok {
+				return sv.Arr, true
+			}
+		}
+		return nil, false
+	case *ast.SelectorExpr:
 		if v, ok := e.evalAtHead(st, x, fp, info); ok {
 			if sv, ok := toSlice(v); ok {
 				return sv.Arr, true
